@@ -11,7 +11,9 @@ struct PCert { bool bhrz; int affdim, lindim, ncons, npoints; std::vector<int> r
 // Orientation of the two dimension components in the certificate-vs-certificate overload, probed once
 // on the library under test (that overload orders them opposite to compare(const Polyhedron&); the
 // multiset order of BHZ03 is the one the library's Certificate class defines, whichever way it points).
+inline int& forced_orientation() { static int f = 0; return f; }   // 0: probe the library; -1: the order of the papers (greater dimension = smaller certificate)
 inline int cert_dim_orientation(bool bhrz, bool lin) {
+  if (forced_orientation() != 0) return forced_orientation();
   static int cache[2][2] = { { 0, 0 }, { 0, 0 } };
   int& c = cache[bhrz][lin];
   if (c == 0) {
@@ -126,7 +128,12 @@ template <typename PH> struct PpsChain {
     txt += "; disjunct certificates y {"; for (size_t i = 0; i < MY.size(); ++i) txt += show(MY[i]); txt += "} result {"; for (size_t i = 0; i < MZ.size(); ++i) txt += show(MZ[i]); txt += "}";
     if (ny > 1 && nz == 1) return 1;
     if (ny <= 1) return nz <= 1 ? 0 : -1;
-    return multiset_decrease(MY, MZ);
+    int md = multiset_decrease(MY, MZ);
+    if (md != 1) { // would the step decrease in the order of the papers (the library's certificate-vs-certificate overload inverts the dimension components)?
+      forced_orientation() = -1; int md2 = multiset_decrease(MY, MZ); forced_orientation() = 0;
+      if (md2 == 1) return -4;
+    }
+    return md;
   }
 
   PS twin(const PS& p, bool permute, std::string& desc) {
@@ -167,6 +174,7 @@ template <typename PH> struct PpsChain {
       int d = own_decrease(op, y, z, SY, SZ, txt);
       if (d == -2) hx::inconclusive("hull_oracle");
       else if (d == -3) { violation(key("certificate", op.name, TR::nnc() ? ":ppl-compare-nnc-counts" : ":ppl-compare"), txt + "; y=" + show_ps(SY) + " result=" + show_ps(SZ)); return false; }
+      else if (d == -4) { violation(key("certificate", op.name, ":decreases-only-in-uninverted-order"), "the multiset of disjunct certificates decreases in the order of the BHZ03 papers but not in the order of Certificate::compare(const Certificate&), which inverts the dimension components: " + txt + "; y=" + show_ps(SY) + " x=" + show_ps(SX) + " result=" + show_ps(SZ)); return false; }
       else if (d != 1) { violation(key("certificate", op.name, TR::nnc() ? ":nnc-counts" : ""), "non-stationary step without strict decrease of the recomputed powerset certificate: " + txt + "; y=" + show_ps(SY) + " x=" + show_ps(SX) + " result=" + show_ps(SZ)); return false; }
     }
     if (!twin_reported && coin(70)) {
